@@ -473,6 +473,21 @@ impl BuddyAllocator {
     }
 }
 
+// Read-only views for the external verification harness (cfg(redb_verif) only)
+#[cfg(redb_verif)]
+impl BuddyAllocator {
+    // One entry per block of the given order; true means the block is marked free at that order
+    pub(crate) fn verif_free_bits(&self, order: u8) -> Vec<bool> {
+        let bitmap = self.get_order_free(order);
+        (0..bitmap.len()).map(|i| !bitmap.get(i)).collect()
+    }
+
+    // Whether the order-0 page is covered by a block marked free at any order
+    pub(crate) fn verif_page_is_free(&self, page: u32) -> bool {
+        self.find_free_order(page).is_some()
+    }
+}
+
 #[cfg(test)]
 mod test {
     use crate::tree_store::page_store::buddy_allocator::BuddyAllocator;
